@@ -128,7 +128,7 @@ static double ktrunc(const EllObj& E, bool series) {
 struct Route { const EllObj* E = nullptr; bool series = true, nonfinite = false, moved = false; double lat1 = 0, lat2 = 0; };
 static Route g_route;
 // name of the defect whose code path the current call takes ("" if none)
-static std::string defect_regime() {
+static std::string defect_regime(const std::string& monitor = "") {
   if (!g_route.E || g_route.series) return "";
   const EllObj& E = *g_route.E; double l1 = g_route.lat1, l2 = g_route.lat2, boa = 1 - E.f;
   bool notpole = std::fabs(l1) < 90 && std::fabs(l2) < 90;
@@ -140,12 +140,15 @@ static std::string defect_regime() {
   // a non-zero latitude so small that differences of its tangent underflow
   if (l1 * l2 >= 0 && ((l1 != 0 && std::fabs(l1) < 1e-280) || (l2 != 0 && std::fabs(l2) < 1e-280)))
     return "defect:C09/exact/underflowing-latitude-difference";
-  if (boa < 0.3 || boa > 3) return "defect:C09/exact/extreme-eccentricity-accuracy";
+  // narrowed after seeded change C09-r4s2 (which hid inside the former regime b/a outside [0.3, 3]): measured on the unchanged tree
+  // (3 seeds x 2 x quick, regime switched off) only the AREA monitors fail, and only for b/a <= 0.014
+  // on the prolate side several monitors fail from b/a ~ 10 on (area at b/a = 10, direct-of-inverse position from b/a ~ 24): bound unchanged
+  if (boa > 3 || (boa < 0.05 && (monitor.empty() || monitor.find("/S12/") != std::string::npos))) return "defect:C09/exact/extreme-eccentricity-accuracy";
   return "";
 }
 static std::string otag(const std::string& md) { return defect_regime().empty() ? md : md + ", regime of a reported defect"; }
 static void V(Ctx& c, const std::string& key, const std::string& cls, const J& detail) {
-  std::string k = defect_regime();
+  std::string k = defect_regime(key);
   if (k.empty()) k = key;
   J d = detail; d.str("monitor", key);
   c.viol(k, cls, d);
